@@ -161,11 +161,15 @@ func c10(g *Gen) {
 				kind = "generate"
 			}
 			// perturb the on-disk copy before some verifies
-			if kind == "verify" && s > 0 && g.Chance(0.6) && len(names) > 0 {
+			lastPerturb := ""
+			if s > 0 && g.Chance(0.6) && len(names) > 0 {
 				f := filepath.Join(dir, g.Pick(names))
 				b, err := os.ReadFile(f)
-				p := g.Pick([]string{"flip-first", "flip-middle", "flip-last", "truncate", "extend", "delete", "delete-dir", "extra-file"})
+				p := g.Pick([]string{"flip-first", "flip-middle", "flip-last", "truncate", "extend", "delete", "delete-dir", "extra-file", "longer", "longer"})
 				switch {
+				case p == "longer" && err == nil:
+					// what an earlier version of the tool left behind: the same file with more in it
+					os.WriteFile(f, append(b, []byte(strings.Repeat("// left over from an earlier, longer output\n", 30))...), 0644)
 				case p == "delete-dir":
 					os.RemoveAll(dir)
 				case p == "extra-file":
@@ -184,6 +188,7 @@ func c10(g *Gen) {
 					os.WriteFile(f, b, 0644)
 				}
 				history = append(history, p)
+				lastPerturb = p
 			}
 			before := c10snapshot(dir)
 			mode := 1
@@ -198,6 +203,9 @@ func c10(g *Gen) {
 				if h != "verify" && h != "generate" {
 					cls = append(cls, "perturb-"+h)
 				}
+			}
+			if kind == "generate" && (lastPerturb == "longer" || lastPerturb == "extend") {
+				cls = append(cls, "generate-over-longer-file")
 			}
 			if !before.dir {
 				cls = append(cls, "dir-missing")
